@@ -389,6 +389,32 @@ def check_module_flags(res, sm, table, modules=None) -> int:
         if cls in ("DisableBit", "EnableBit"):
           seen.setdefault(f"{cls}.{node.attr}", node.lineno)
     consults[mod.name] = seen
+  def only_clears_own(mod, flag):
+    """every `if` whose test mentions the flag guards nothing but zero-fills of the flag's own contribution
+    (tables/flag_tables.FLAG_OFF): a stage that merely clears a disabled stage's output gives the flag no new effect"""
+    from ..tables import flag_tables as ft
+
+    own = {f.split(".", 1)[1] for f in ft.FLAG_OFF.get(flag, [])}
+    cls, mem = flag.split(".")
+    hits = 0
+    for n in ast.walk(mod.tree):
+      if not isinstance(n, ast.If):
+        continue
+      if not any(isinstance(x, ast.Attribute) and x.attr == mem and ((isinstance(x.value, ast.Name) and x.value.id == cls) or (isinstance(x.value, ast.Attribute) and x.value.attr == cls)) for x in ast.walk(n.test)):
+        continue
+      hits += 1
+      if n.orelse:
+        return False
+      for st in n.body:
+        c = st.value if isinstance(st, ast.Expr) and isinstance(st.value, ast.Call) else None
+        f = c.func if c is not None else None
+        ok = isinstance(f, ast.Attribute) and (f.attr == "zero_" or (f.attr == "fill_" and len(c.args) == 1 and isinstance(c.args[0], ast.Constant) and c.args[0].value in (0, 0.0))) and isinstance(f.value, ast.Attribute) and f.value.attr in own
+        if not ok:
+          return False
+    # the flag must not be referenced outside those tests
+    refs = sum(1 for x in ast.walk(mod.tree) if isinstance(x, ast.Attribute) and x.attr == mem and ((isinstance(x.value, ast.Name) and x.value.id == cls) or (isinstance(x.value, ast.Attribute) and x.value.attr == cls)))
+    return hits > 0 and refs == hits
+
   # a test that MOVED with its code (some module of the table no longer consults the flag at all) is not a new consultation
   moved = {f for m_, fl in table.items() for f in fl if f not in consults.get(m_, {})}
   for mod in sm.modules.values():
@@ -399,7 +425,7 @@ def check_module_flags(res, sm, table, modules=None) -> int:
     for flag, ln in sorted(seen.items()):
       n += 1
       res.ob(
-        flag in allowed,
+        flag in allowed or only_clears_own(mod, flag),
         f"{mod.name}|consults|{flag}",
         Finding("R-FLAGS.6", f"{mod.name}|{flag}|new-flag-consulted", f"{mod.name}.py now tests {flag}, which this stage does not consult on the confirmed tree (it consults {sorted(allowed) or 'no flags'}): the flag acquires an effect on this stage's outputs that MuJoCo's flag does not have", f"{mod.path}:{ln}"),
       )
